@@ -321,3 +321,17 @@ func init() {
 		return in.M.Or(a[0].(*term.T), a[1].(*term.T))
 	})
 }
+
+func init() {
+	reg := func(name string, f Intrinsic) { intrinsics[vrtPkg+"."+name] = f }
+	// SchedBegin/SchedEnd delimit the part of a harness whose interleavings are explored;
+	// outside it threads run sequentially (a thread runs until it blocks).
+	reg("SchedBegin", func(in *Interp, fr *frame, a []Value, c *ssa.CallCommon) Value {
+		in.sched = in.Cfg.Sched
+		return nil
+	})
+	reg("SchedEnd", func(in *Interp, fr *frame, a []Value, c *ssa.CallCommon) Value {
+		in.sched = false
+		return nil
+	})
+}
